@@ -49,17 +49,18 @@ class Obligation:
 
 
 class St:
-    __slots__ = ("guards", "facts", "env", "heap", "eff")
+    __slots__ = ("guards", "facts", "env", "heap", "eff", "epoch")
 
-    def __init__(self, guards=(), facts=(), env=None, heap=None, eff=None):
+    def __init__(self, guards=(), facts=(), env=None, heap=None, eff=None, epoch=0):
         self.guards = list(guards)
         self.facts = list(facts)
         self.env = dict(env or {})
         self.heap = dict(heap or {})
         self.eff = eff
+        self.epoch = epoch
 
     def copy(self):
-        return St(self.guards, self.facts, self.env, self.heap, self.eff)
+        return St(self.guards, self.facts, self.env, self.heap, self.eff, self.epoch)
 
     def assume(self, f):
         self.facts.append(f)
@@ -125,10 +126,15 @@ class Engine:
             return z3.ForAll([x], z3.Implies(v.has(term, x), v.ty(x) == c), patterns=[v.has(term, x)])
         return None
 
-    def heap0(self, attr):
-        if attr not in self.attr_arrays:
-            self.attr_arrays[attr] = z3.Const(f"H0_{attr}", z3.ArraySort(self.voc.Val, self.voc.Val))
-        return self.attr_arrays[attr]
+    def add_global_fact(self, f):
+        if not any(g.get_id() == f.get_id() for g in self.global_facts):
+            self.global_facts.append(f)
+
+    def heap0(self, attr, epoch=0):
+        key = attr if epoch == 0 else (attr, epoch)
+        if key not in self.attr_arrays:
+            self.attr_arrays[key] = z3.Const(f"H{epoch}_{attr}", z3.ArraySort(self.voc.Val, self.voc.Val))
+        return self.attr_arrays[key]
 
     # ------------------------------------------------------------------ boxing
     def box(self, sv: SV):
@@ -142,6 +148,13 @@ class Engine:
         if sv.pt == "str":
             return v.S2V(sv.t)
         if sv.t is None:
+            if sv.pt == "pyfunc":
+                # function objects used as data are opaque values
+                cache = self.__dict__.setdefault("_fn_vals", {})
+                key = id(sv.py[1]) if len(sv.py) > 1 else id(sv.py)
+                if key not in cache:
+                    cache[key] = self.fresh("fnobj")
+                return cache[key]
             raise Untranslatable(f"python-level value used as data: {sv.py!r}")
         return sv.t
 
